@@ -118,7 +118,7 @@ class HTMLFormFiller(object):
                             if name and name in self.data:
                                 value = self.data[name]
                                 if isinstance(value, (list, tuple)):
-                                    value = value[0]
+                                    value = value[0] if value else None
                                 if value is not None:
                                     attrs |= [
                                         (QName('value'), six.text_type(value))
@@ -133,7 +133,8 @@ class HTMLFormFiller(object):
                         if name in self.data:
                             textarea_value = self.data.get(name)
                             if isinstance(textarea_value, (list, tuple)):
-                                textarea_value = textarea_value[0]
+                                textarea_value = textarea_value[0] \
+                                    if textarea_value else None
                             in_textarea = True
                     elif in_select and tagname == 'option':
                         option_start = kind, data, pos
